@@ -110,8 +110,8 @@ SProduce(e) ==
 SHashOK(e) ==
   LET f == D(e, 1) IN
   IF e.p = "32749"
-  THEN /\ Normalised("ff", 32749, e.w, 0, nvars)
-       /\ <<e.val>> = Comps(WMC("ff", 32749, f, e.w, 0, nvars), 0)
+  THEN /\ Normalised("ff", 32749, e.w, WX(0, nvars), nvars)
+       /\ <<e.val>> = Comps(WMC("ff", 32749, f, e.w, WX(0, nvars), nvars), 0)
   ELSE LET P == PrimeLimbs(e.p)
            s == LAdd(e.limbs, e.nlimbs)
        IN /\ IsLimbs(e.limbs) /\ IsLimbs(e.nlimbs)
@@ -131,8 +131,8 @@ SQueryOK(e) ==
          ELSE IF compress THEN Req("C04", e.val = (den[e.a[1]] = den[e.a[2]])) ELSE TRUE
     [] e.ev = "pred" -> TRUE                                             \* library-side predicates: cross-check only
     [] e.ev = "wmc" -> Req("C07",
-         /\ Normalised(e.sr, e.p, e.w, e.wexp, nvars)
-         /\ e.val = Comps(WMC(e.sr, e.p, D(e, 1), e.w, e.wexp, nvars), nvars * e.wexp)
+         /\ Normalised(e.sr, e.p, e.w, WX(e.wexp, nvars), nvars)
+         /\ e.val = Comps(WMC(e.sr, e.p, D(e, 1), e.w, WX(e.wexp, nvars), nvars), nvars * e.wexp)
          /\ (IF "den" \in DOMAIN e THEN e.den = 1 ELSE TRUE)
          /\ (IF "tail0" \in DOMAIN e THEN e.tail0 ELSE TRUE))
     [] e.ev = "semhash" -> Req("C11", SHashOK(e))
